@@ -28,8 +28,10 @@ FLAVOURS = {"sync_digraph": True, "sync_ungraph": False}
 SHARDS = 8
 TIERS = {
     "quick": dict(nodes=2, threads=2, max_calls=1, init_edges=1, max_exec=6000,
-                  extra=[dict(nodes=3, threads=3, max_calls=1, init_edges=1, max_exec=6000, rotational=True, pre_bound=2)]),
-    "thorough": dict(nodes=2, threads=2, max_calls=1, init_edges=2, max_exec=3000,
+                  extra=[dict(nodes=2, threads=2, max_calls=1, init_edges=2, vals=[1, 2], max_exec=3000,
+                              only="parallel-distinct"),   # real locks: only initial graphs with parallel edges of different values
+                         dict(nodes=3, threads=3, max_calls=1, init_edges=1, max_exec=6000, rotational=True, pre_bound=2)]),
+    "thorough": dict(nodes=2, threads=2, max_calls=1, init_edges=2, vals=[1, 2], max_exec=3000,
                      extra=[dict(nodes=3, threads=2, max_calls=1, init_edges=1, max_exec=1000),
                             dict(nodes=3, threads=3, max_calls=1, init_edges=1, max_exec=4000, rotational=True, pre_bound=3)]),
 }
@@ -65,7 +67,7 @@ def run(pid, tier, seed):
     fams = [T] + T.get("extra", [])
     for fi, fam in enumerate(fams):
         for fl, directed in FLAVOURS.items():
-            c = {"Nodes": set(range(1, fam["nodes"] + 1)), "Vals": {1}, "Directed": directed,
+            c = {"Nodes": set(range(1, fam["nodes"] + 1)), "Vals": set(fam.get("vals", [1])), "Directed": directed,
                  "Threads": set(range(1, fam["threads"] + 1)), "MaxCalls": fam["max_calls"], "MaxInitEdges": fam["init_edges"],
                  "Rotational": bool(fam.get("rotational", False))}
             r = vlib.run_tlc("MC_Locks", vlib.cfg_text(c, spec="LSpec", invariants=["Progress"]), "%s/mc_%s_f%d" % (tag, fl, fi),
@@ -76,7 +78,7 @@ def run(pid, tier, seed):
             states += r.distinct
             transitions += r.generated
             models.append({"model": "MC_Locks", "flavour": fl, "Nodes": fam["nodes"], "Threads": fam["threads"], "MaxCalls": fam["max_calls"],
-                           "MaxInitEdges": fam["init_edges"], "rotational": bool(fam.get("rotational", False)), "distinct_states": r.distinct})
+                           "MaxInitEdges": fam["init_edges"], "Vals": fam.get("vals", [1]), "rotational": bool(fam.get("rotational", False)), "distinct_states": r.distinct})
             model = {}
             for o in vlib.tlc_json_lines(r.out_file):
                 model.setdefault(scen_key(o), {"g0": o["g0"], "prog": o["prog"], "outs": {}})["outs"][key(norm_model(o))] = o["verdict"]
@@ -87,6 +89,11 @@ def run(pid, tier, seed):
             of = os.path.join(d, "out_%s_f%d.ndjson" % (fl, fi))
             # the hook is process-global: shard the scenarios over processes
             keys = sorted(model)
+            if fam.get("only") == "parallel-distinct":
+                # the rest of this family differs from family 0 only in the values written on the edges
+                def pd(g0):
+                    return any(a[0] == b[0] and a[1] != b[1] for l in g0["out"] for i, a in enumerate(l) for b in l[i + 1:])
+                keys = [k for k in keys if pd(model[k]["g0"])]
             nsh = min(SHARDS, max(1, len(keys)))
             jobs = []
             for sh in range(nsh):
@@ -151,7 +158,7 @@ def run(pid, tier, seed):
                         fin = {"out": [[]] * n, "inn": [[]] * n} if pois else o["final"]
                         f.write(json.dumps({"ev": "exec", "g0": sc["g0"], "prog": sc["prog"], "rets": o["rets"], "final": fin, "poisoned": pois,
                                             "deadlock": o["deadlock"]}) + "\n")
-                cfg = vlib.cfg_text({"Nodes": set(range(1, n + 1)), "Vals": {1}, "Directed": directed}, spec="TSpec",
+                cfg = vlib.cfg_text({"Nodes": set(range(1, n + 1)), "Vals": set(fam.get("vals", [1])), "Directed": directed}, spec="TSpec",
                                     invariants=["Consumed"], postcondition="AllConsumed")
                 rr = vlib.run_tlc("TraceLocks", cfg, "%s/adjtlc_%s_f%d" % (tag, fl, fi), workers=1, timeout=3000, env={"TRACE": tr}, deque=True, heap="6g")
                 if not rr.ok or rr.depth != len(pending) + 1:
